@@ -54,23 +54,49 @@ Theorem c17_take_success_cached : forall TS (tstep : TS -> op -> TS * fired) k v
 Proof. exact @take_fetches_once_and_caches. Qed.
 Print Assumptions c17_take_success_cached.
 
-(* PARTIAL (expiry window).  Proved: SetWithExpire hands exactly the jittered duration j to the wheel --
-   SetTimer(k,v,j) for a new key, MoveTimer(k,j) for a stored one (re-scheduling from the moment of the call) --
-   and for j within [95%,105%] of the expiry and >= one second the tick count floor(j/1s) that C10
-   (c10_refines_timer_spec / c10_exactly_once) turns into the firing tick lies in
-   [floor(0.95 e/1s), floor(1.05 e/1s)].  Missing: the end-to-end history theorem composing this with C10's
-   invariant (needs "every stored key with positive expiry has a pending timer" as a cache invariant) and
-   c17_get_latest as a history statement; both are covered by the correspondence check (Exec.spec_ok). *)
-Theorem c17_expiry_window_partial :
-  (forall TS (tstep : TS -> op -> TS * fired) k v j c,
-     let c1 := lru_add tstep k (mkC (aset Nat.eqb k v (c_data c)) (c_lru c) (c_expire c) (c_ts c)) in
-     let tf := timer_call tstep (c_ts c1) (set_request k v j c) in
-     cset tstep k v j c = expire_all tstep (snd tf) (mkC (c_data c1) (c_lru c1) (c_expire c1) (fst tf))) /\
-  (forall e j : Z, (e * 95 / 100 <= j <= e * 105 / 100)%Z -> (Z.pos second <= j)%Z ->
-     Z.to_nat (e * 95 / 100 / Z.pos second) <= steps_of second j <= Z.to_nat (e * 105 / 100 / Z.pos second) /\
-     1 <= steps_of second j).
-Proof. split; [exact @cset_hands_jitter_to_wheel | exact window_arith]. Qed.
-Print Assumptions c17_expiry_window_partial.
+(* ---- expiry: history-level statements on the cache running on the C10 wheel model ----
+   `wnew_at I e lim` is the cache on a 300-slot wheel with interval I (NewCache: I = one second); `valid_cop I`
+   restricts the jittered delay j of every Set/SetWithExpire/Take to at least one interval (the scope of the
+   property); `grun` runs the cache and keeps two ghosts: T, the number of ticks seen, and G, for every key the
+   pair (T at its last Set / SetWithExpire / caching Take, the jittered delay j of that call). *)
+
+(* Every stored entry has a pending timer in the wheel's index, after every history: no SetTimer/MoveTimer
+   is lost or rejected, so no entry can stay forever. *)
+Theorem c17_stored_has_timer : forall I e lim ops k, Forall (valid_cop I) ops ->
+  In k (keys (c_data (crun step_ok (wnew_at I e lim) ops))) ->
+  timer k (timers (c_ts (crun step_ok (wnew_at I e lim) ops))) <> None.
+Proof. exact stored_has_timer. Qed.
+Print Assumptions c17_stored_has_timer.
+
+(* After every history, an entry that is stored was last set at some tick T0 with jittered delay j, its due
+   tick T0 + floor(j/I) is still ahead, and the next tick keeps it unless that tick IS the due tick: an entry
+   is dropped for age at exactly T0 + floor(j/I) -- not earlier, not later, whatever was done to other keys,
+   at whatever wheel phase, for any number of revolutions.  (Composition of the cache with
+   c10_refines_timer_spec's invariant; a re-Set moves T0 and j, i.e. re-schedules from that call.) *)
+Theorem c17_expiry_window : forall I e lim ops, Forall (valid_cop I) ops ->
+  let r := grun 0 [] (wnew_at I e lim) ops in
+  let T := fst (fst r) in let G := snd (fst r) in let c := snd r in
+  forall k, In k (keys (c_data c)) ->
+    exists T0 j, alookup Nat.eqb k G = Some (T0, j) /\ T < T0 + steps_of I j /\
+                 (In k (keys (c_data (ctick step_ok c))) <-> T0 + steps_of I j <> S T).
+Proof. exact expiry_history. Qed.
+Print Assumptions c17_expiry_window.
+
+(* ... and with j within [95%, 105%] of the expiry (c17_jitter_window) that tick lies floor(0.95 e/I) to
+   floor(1.05 e/I) ticks after the Set.  Also: SetWithExpire hands exactly j to the wheel (SetTimer for a new
+   key, MoveTimer for a stored one). *)
+Theorem c17_window_ticks : forall (I : positive) (e j : Z),
+  (e * 95 / 100 <= j <= e * 105 / 100)%Z -> (Z.pos I <= j)%Z ->
+  Z.to_nat (e * 95 / 100 / Z.pos I) <= steps_of I j <= Z.to_nat (e * 105 / 100 / Z.pos I) /\ 1 <= steps_of I j.
+Proof. exact window_arith. Qed.
+Print Assumptions c17_window_ticks.
+
+Theorem c17_set_hands_jitter_to_wheel : forall TS (tstep : TS -> op -> TS * fired) k v j c,
+  let c1 := lru_add tstep k (mkC (aset Nat.eqb k v (c_data c)) (c_lru c) (c_expire c) (c_ts c)) in
+  let tf := timer_call tstep (c_ts c1) (set_request k v j c) in
+  cset tstep k v j c = expire_all tstep (snd tf) (mkC (c_data c1) (c_lru c1) (c_expire c1) (fst tf)).
+Proof. exact @cset_hands_jitter_to_wheel. Qed.
+Print Assumptions c17_set_hands_jitter_to_wheel.
 
 (* The jitter, in exact arithmetic on the random draw d (Float64() = d / 2^63) and for EVERY base duration
    >= 0 (seconds to years, no bound): (1 + 1/20 - 2 * 1/20 * d / 2^63) * base lies within [95%, 105%] of the
@@ -93,3 +119,12 @@ Example c17_expiry_example :
   let c1 := crun step_ok c0 [KTick] in
   map fst (c_data c0) = [0] /\ c_data c1 = [].
 Proof. vm_compute. split; reflexivity. Qed.
+
+(* the hypotheses of the expiry theorems are satisfiable, and the ghost tracks the last Set: one-hour
+   interval, 30-day expiry, a re-Set after 5 ticks *)
+Example c17_expiry_hypotheses_satisfiable :
+  let I := 3600000000000%positive in
+  let ops := [KSet 0 1 2592000000000000; KTick; KTick; KTick; KTick; KTick; KSet 0 2 2700000000000000; KGet 0] in
+  Forall (valid_cop I) ops /\
+  fst (grun 0 [] (wnew_at I 2592000000000000 0) ops) = (5, [(0, (5, 2700000000000000%Z))]).
+Proof. split; [repeat constructor; simpl; lia|]. vm_compute. reflexivity. Qed.
